@@ -237,4 +237,130 @@ Proof.
   - apply Nat.leb_gt in H. rewrite H. reflexivity.
 Qed.
 
+
+(* ---------- call histories on one object ---------- *)
+Lemma upd_nth_same {B} (l : list B) r d : upd l r (nth r l d) = l.
+Proof. revert r; induction l as [|h t IH]; intros [|r]; simpl; auto. f_equal. apply IH. Qed.
+
+Lemma set_gpsis_twice (a : gargs (A:=A) (I:=I)) g g' : set_gpsis (set_gpsis a g) g' = set_gpsis a g'.
+Proof. reflexivity. Qed.
+
+(* the buffer argument does not influence the values (every cell is overwritten before use) *)
+Lemma wrapper_gamma_indep_buffer d sp psi lgc gac x T inter g g' mask qs rs Qs cg cQfs index :
+  match wrapper K d sp psi lgc gac x T inter g mask qs rs Qs cg cQfs index,
+        wrapper (I:=I) K d sp psi lgc gac x T inter g' mask qs rs Qs cg cQfs index with
+  | Ok w, Ok w' => w_gamma w = w_gamma w' /\ w_x w = w_x w'
+  | Err e, Err e' => e = e'
+  | _, _ => False
+  end.
+Proof.
+  unfold wrapper.
+  destruct (1 <? length index)%nat; [|simpl; auto].
+  destruct (gather_loop K d index x (ones K (length index))) as [x1 xs1].
+  destruct (negb _); [simpl; auto|].
+  destruct sp; simpl; auto.
+Qed.
+
+Section History.
+Variable f : wfun (A:=A) (I:=I).
+(* the two facts about f the history theorem rests on *)
+Hypothesis f_buffer_free : forall x T a g, gamma_of f (set_gpsis a g) x T = gamma_of f a x T.
+Hypothesis f_keeps_x : forall x T a w, f_apply f x T a = Ok w -> w_x w = x.
+
+Lemma run_hist_spec ops : forall arrays a g,
+  snd (run_hist f (mkH arrays (set_gpsis a g)) ops) = spec_hist f a arrays ops.
+Proof.
+  induction ops as [|o t IH]; intros arrays a g; [reflexivity|].
+  destruct o as [r alias T|r T|r v]; cbn [run_hist hstep h_arrays h_args].
+  - unfold call. destruct alias; cbn [xval].
+    + pose proof (f_buffer_free (nth r arrays []) T a g) as B. unfold gamma_of in B.
+      destruct (f_apply f (nth r arrays []) T (set_gpsis a g)) as [w|e] eqn:E; cbn [bind c_x c_gamma c_gpsis].
+      * rewrite (f_keeps_x _ _ _ _ E). rewrite upd_nth_same. rewrite set_gpsis_twice.
+        specialize (IH arrays a (w_gpsis w)).
+        destruct (run_hist f (mkH arrays (set_gpsis a (w_gpsis w))) t) as [s2 outs]. cbn [snd] in *.
+        cbn [spec_hist]. unfold gamma_of. rewrite <- B. cbn [c_gamma]. rewrite IH. reflexivity.
+      * specialize (IH arrays a g).
+        destruct (run_hist f (mkH arrays (set_gpsis a g)) t) as [s2 outs]. cbn [snd] in *.
+        cbn [spec_hist]. unfold gamma_of. rewrite <- B. rewrite IH. reflexivity.
+    + pose proof (f_buffer_free (nth r arrays []) T a g) as B. unfold gamma_of in B.
+      destruct (f_apply f (nth r arrays []) T (set_gpsis a g)) as [w|e] eqn:E; cbn [bind c_x c_gamma c_gpsis].
+      * cbn [c_x]. rewrite upd_nth_same. rewrite set_gpsis_twice.
+        specialize (IH arrays a (w_gpsis w)).
+        destruct (run_hist f (mkH arrays (set_gpsis a (w_gpsis w))) t) as [s2 outs]. cbn [snd] in *.
+        cbn [spec_hist]. unfold gamma_of. rewrite <- B. cbn [c_gamma]. rewrite IH. reflexivity.
+      * specialize (IH arrays a g).
+        destruct (run_hist f (mkH arrays (set_gpsis a g)) t) as [s2 outs]. cbn [snd] in *.
+        cbn [spec_hist]. unfold gamma_of. rewrite <- B. rewrite IH. reflexivity.
+  - pose proof (f_buffer_free (nth r arrays []) T a g) as B. unfold gamma_of in B.
+    destruct (f_apply f (nth r arrays []) T (set_gpsis a g)) as [w|e] eqn:E.
+    + rewrite (f_keeps_x _ _ _ _ E). rewrite upd_nth_same. rewrite set_gpsis_twice.
+      specialize (IH arrays a (w_gpsis w)).
+      destruct (run_hist f (mkH arrays (set_gpsis a (w_gpsis w))) t) as [s2 outs]. cbn [snd] in *.
+      cbn [spec_hist]. unfold gamma_of. rewrite <- B. rewrite IH. reflexivity.
+    + specialize (IH arrays a g).
+      destruct (run_hist f (mkH arrays (set_gpsis a g)) t) as [s2 outs]. cbn [snd] in *.
+      cbn [spec_hist]. unfold gamma_of. rewrite <- B. rewrite IH. reflexivity.
+  - specialize (IH (upd arrays r v) a g).
+    destruct (run_hist f (mkH (upd arrays r v) (set_gpsis a g)) t) as [s2 outs]. cbn [snd] in *.
+    cbn [spec_hist]. rewrite IH. reflexivity.
+Qed.
+
+(* the caller's arrays change only through the caller's own writes *)
+Lemma run_hist_arrays ops : forall arrays a,
+  h_arrays (fst (run_hist f (mkH arrays a) ops)) =
+  fold_left (fun arr o => match o with HSet r v => upd arr r v | _ => arr end) ops arrays.
+Proof.
+  induction ops as [|o t IH]; intros arrays a; [reflexivity|].
+  destruct o as [r alias T|r T|r v]; cbn [run_hist hstep h_arrays h_args fold_left].
+  - unfold call. destruct alias; cbn [xval];
+      destruct (f_apply f (nth r arrays []) T a) as [w|e] eqn:E; cbn [bind c_x c_gamma c_gpsis].
+    + rewrite (f_keeps_x _ _ _ _ E). rewrite upd_nth_same.
+      specialize (IH arrays (set_gpsis a (w_gpsis w))).
+      destruct (run_hist f (mkH arrays (set_gpsis a (w_gpsis w))) t) as [s2 outs]. cbn [fst] in *. exact IH.
+    + specialize (IH arrays a). destruct (run_hist f (mkH arrays a) t) as [s2 outs]. cbn [fst] in *. exact IH.
+    + rewrite upd_nth_same.
+      specialize (IH arrays (set_gpsis a (w_gpsis w))).
+      destruct (run_hist f (mkH arrays (set_gpsis a (w_gpsis w))) t) as [s2 outs]. cbn [fst] in *. exact IH.
+    + specialize (IH arrays a). destruct (run_hist f (mkH arrays a) t) as [s2 outs]. cbn [fst] in *. exact IH.
+  - destruct (f_apply f (nth r arrays []) T a) as [w|e] eqn:E.
+    + rewrite (f_keeps_x _ _ _ _ E). rewrite upd_nth_same.
+      specialize (IH arrays (set_gpsis a (w_gpsis w))).
+      destruct (run_hist f (mkH arrays (set_gpsis a (w_gpsis w))) t) as [s2 outs]. cbn [fst] in *. exact IH.
+    + specialize (IH arrays a). destruct (run_hist f (mkH arrays a) t) as [s2 outs]. cbn [fst] in *. exact IH.
+  - specialize (IH (upd arrays r v) a). destruct (run_hist f (mkH (upd arrays r v) a) t) as [s2 outs].
+    cbn [fst] in *. exact IH.
+Qed.
+End History.
+
+Lemma set_gpsis_self (a : gargs (A:=A) (I:=I)) : set_gpsis a (a_gpsis a) = a.
+Proof. destruct a; reflexivity. Qed.
+
+(* both facts hold for any instance of the wrapper whose gather loop reads x *)
+Lemma wrapper_buffer_free sp psi lgc gac x T (a : gargs (A:=A) (I:=I)) g :
+  gamma_of (wrapper K GatherIntoSub sp psi lgc gac) (set_gpsis a g) x T =
+  gamma_of (wrapper K GatherIntoSub sp psi lgc gac) a x T.
+Proof.
+  unfold gamma_of, f_apply, set_gpsis. cbn.
+  pose proof (wrapper_gamma_indep_buffer GatherIntoSub sp psi lgc gac x T (a_inter a) g (a_gpsis a) (a_mask a)
+                (a_qs a) (a_rs a) (a_Qs a) (a_chemgroups a) (a_cQfs a) (a_index a)) as H.
+  destruct (wrapper K GatherIntoSub sp psi lgc gac x T (a_inter a) g _ _ _ _ _ _ _) as [w|e];
+  destruct (wrapper K GatherIntoSub sp psi lgc gac x T (a_inter a) (a_gpsis a) _ _ _ _ _ _ _) as [w'|e'];
+    try contradiction.
+  - destruct H as [H _]. rewrite H. reflexivity.
+  - subst. reflexivity.
+Qed.
+
+Lemma wrapper_history sp psi lgc gac (a : gargs (A:=A) (I:=I)) arrays ops :
+  let f := wrapper K GatherIntoSub sp psi lgc gac in
+  snd (run_hist f (mkH arrays a) ops) = spec_hist f a arrays ops /\
+  h_arrays (fst (run_hist f (mkH arrays a) ops)) =
+  fold_left (fun arr o => match o with HSet r v => upd arr r v | _ => arr end) ops arrays.
+Proof.
+  intros f. split.
+  - rewrite <- (set_gpsis_self a) at 1. apply run_hist_spec.
+    + intros x T a0 g. apply wrapper_buffer_free.
+    + intros x T a0 w H. unfold f_apply in H. eapply wrapper_x_untouched; eauto.
+  - apply run_hist_arrays. intros x T a0 w H. unfold f_apply in H. eapply wrapper_x_untouched; eauto.
+Qed.
+
 End Generic.
